@@ -1,4 +1,4 @@
-"""usage: /venv/bin/python /tmp/run_pinned.py <repo-dir>  – runs the 88 pinned baseline tests in that checkout"""
+"""usage: /venv/bin/python tools/run_pinned.py <repo-dir>  – runs the 88 pinned baseline tests in that checkout"""
 import json, subprocess, sys
 d = sys.argv[1]
 b = json.load(open('/root/.vp/BASELINE.json'))
